@@ -81,28 +81,7 @@ func checkC17(c *Ctx) {
 	// byte other than SUB — however the function is laid out (failure branch first, or success first with
 	// an early return).  The two functions then agree because they pass the same three tests.
 	success := []string{"T#2 == nil", "T#0 != 0", "out[0] != 26"}
-	encAtoms := func(gs []rawGuard) map[string]bool {
-		out := map[string]bool{}
-		for _, g := range gs {
-			bo, ok := g.Cond.(*ssa.BinOp)
-			if !ok {
-				continue
-			}
-			l, r := encNorm(bo.X), encNorm(bo.Y)
-			if !(strings.HasPrefix(l, "T#") || l == "out[0]") {
-				continue
-			}
-			op := bo.Op.String()
-			if !g.Positive {
-				op = negOp(op)
-			}
-			if l == "T#0" && op == ">" && r == "0" {
-				op = "!="
-			}
-			out[l+" "+op+" "+r] = true
-		}
-		return out
-	}
+	encAtoms := encSuccessAtoms
 	hasAll := func(m map[string]bool) bool {
 		for _, w := range success {
 			if !m[w] {
@@ -1021,4 +1000,69 @@ func checkEncodeDst(c *Ctx, p *Prog, fn *ssa.Function, rule string) {
 	if n == 0 {
 		c.Undecided(rule, fn.Name()+":encoder-destination", p.pos(fn.Pos()), "no Transform call")
 	}
+}
+
+// encSuccessAtoms: what the branch conditions gs say about an encoder call's results (T#0 length, T#2
+// error, out[0] first output byte), polarity applied.
+func encSuccessAtoms(gs []rawGuard) map[string]bool {
+	out := map[string]bool{}
+	for _, g := range gs {
+		bo, ok := g.Cond.(*ssa.BinOp)
+		if !ok {
+			continue
+		}
+		l, r := encNorm(bo.X), encNorm(bo.Y)
+		if !(strings.HasPrefix(l, "T#") || l == "out[0]") {
+			continue
+		}
+		op := bo.Op.String()
+		if !g.Positive {
+			op = negOp(op)
+		}
+		if l == "T#0" && op == ">" && r == "0" {
+			op = "!="
+		}
+		out[l+" "+op+" "+r] = true
+	}
+	return out
+}
+
+// transformHost: fn itself when it calls the charset encoder, else the module helper it calls that does.
+func transformHost(p *Prog, fn *ssa.Function) *ssa.Function {
+	isT := func(_ string, cc *ssa.CallCommon) bool { return cc.IsInvoke() && cc.Method.Name() == "Transform" }
+	if len(callsIn(fn, isT)) > 0 {
+		return fn
+	}
+	host := fn
+	eachInstr(fn, func(in ssa.Instruction) {
+		if cc := callCommon(in); cc != nil {
+			if h := cc.StaticCallee(); h != nil && h.Pkg == fn.Pkg && len(h.Blocks) > 0 && len(callsIn(h, isT)) > 0 {
+				host = h
+			}
+		}
+	})
+	return host
+}
+
+// encodedAppendAtoms: the success tests known where host appends the encoder's output (the slice of the
+// destination up to the returned length).
+func encodedAppendAtoms(host *ssa.Function) (map[string]bool, bool) {
+	var m map[string]bool
+	found := false
+	eachInstr(host, func(in ssa.Instruction) {
+		call, ok := in.(*ssa.Call)
+		if !ok {
+			return
+		}
+		if b, isB := call.Call.Value.(*ssa.Builtin); !isB || b.Name() != "append" || len(call.Call.Args) != 2 {
+			return
+		}
+		sl, isSl := call.Call.Args[1].(*ssa.Slice)
+		if !isSl || sl.High == nil || !strings.HasPrefix(encNorm(sl.High), "T#0") {
+			return
+		}
+		m = encSuccessAtoms(rawGuardsAt(call.Block()))
+		found = true
+	})
+	return m, found
 }
